@@ -14,8 +14,17 @@ pub struct Found {
     pub origin: &'static str,
     /// run index (search) or plan index (enumeration)
     pub index: u64,
+    /// first run index of the chunk (search) / value index (enumeration) this run shared a
+    /// thread with: everything executed on that thread before it is its possible history
+    pub chunk_start: u64,
     pub plan: Plan,
     pub violation: Violation,
+}
+
+/// Run `f` on a thread of its own, so that no thread-local state of the code under test can
+/// leak in from, or out to, anything else the simulator executes.
+pub fn in_fresh_thread<R: Send>(f: impl FnOnce() -> R + Send) -> R {
+    std::thread::scope(|s| s.spawn(f).join().expect("fresh thread panicked"))
 }
 
 pub struct BatchResult {
@@ -62,6 +71,7 @@ pub fn search_run(prop: Prop, base: u64, i: u64, fault_free_only: bool, stats: &
 }
 
 const MAX_FOUND: usize = 64;
+pub const CHUNK: u64 = 512;
 
 pub fn run_search(
     prop: Prop,
@@ -72,7 +82,6 @@ pub fn run_search(
     want_digests: bool,
 ) -> BatchResult {
     let next = AtomicU64::new(0);
-    const CHUNK: u64 = 512;
     let results: Mutex<Vec<(u64, Stats, Vec<Found>, Vec<serde_json::Value>, Vec<(u64, u64)>)>> =
         Mutex::new(Vec::new());
     std::thread::scope(|scope| {
@@ -83,34 +92,41 @@ pub fn run_search(
                     break;
                 }
                 let end = (start + CHUNK).min(runs);
-                let mut stats = Stats::default();
-                let mut found = Vec::new();
-                let mut samples = Vec::new();
-                let mut digests = Vec::new();
-                for i in start..end {
-                    let out = search_run(prop, base, i, fault_free_only, &mut stats);
-                    stats.log_digest = stats
-                        .log_digest
-                        .wrapping_add(out.log_digest.wrapping_mul(2 * i + 1));
-                    if want_digests {
-                        digests.push((i, out.log_digest));
-                    }
-                    if i < 3 || (i % 1000 == 17 && i < 20_000 && out.nontrivial) {
-                        if out.built {
-                            samples.push(serde_json::json!({"run": i, "case": out.summary}));
+                // every chunk runs on a thread of its own: whatever hidden per-thread state the
+                // code under test may keep, a run can only be influenced by the earlier runs of
+                // its own chunk, which makes "runs start..=i" an exact, replayable history
+                let (stats, found, samples, digests) = in_fresh_thread(|| {
+                    let mut stats = Stats::default();
+                    let mut found = Vec::new();
+                    let mut samples = Vec::new();
+                    let mut digests = Vec::new();
+                    for i in start..end {
+                        let out = search_run(prop, base, i, fault_free_only, &mut stats);
+                        stats.log_digest = stats
+                            .log_digest
+                            .wrapping_add(out.log_digest.wrapping_mul(2 * i + 1));
+                        if want_digests {
+                            digests.push((i, out.log_digest));
+                        }
+                        if i < 3 || (i % 1000 == 17 && i < 20_000 && out.nontrivial) {
+                            if out.built {
+                                samples.push(serde_json::json!({"run": i, "case": out.summary}));
+                            }
+                        }
+                        for v in out.violations {
+                            if found.len() < MAX_FOUND {
+                                found.push(Found {
+                                    origin: "search",
+                                    index: i,
+                                    chunk_start: start,
+                                    plan: out.effective.clone(),
+                                    violation: v,
+                                });
+                            }
                         }
                     }
-                    for v in out.violations {
-                        if found.len() < MAX_FOUND {
-                            found.push(Found {
-                                origin: "search",
-                                index: i,
-                                plan: out.effective.clone(),
-                                violation: v,
-                            });
-                        }
-                    }
-                }
+                    (stats, found, samples, digests)
+                });
                 results.lock().unwrap().push((start, stats, found, samples, digests));
             });
         }
@@ -287,7 +303,7 @@ pub fn enumerate_value(value: &ValueSpec, stats: &mut Stats, mut f: impl FnMut(&
     n
 }
 
-pub fn run_enumeration(values: Vec<ValueSpec>, workers: usize) -> BatchResult {
+pub fn run_enumeration(values: &[ValueSpec], workers: usize) -> BatchResult {
     let next = AtomicUsize::new(0);
     let results: Mutex<Vec<(usize, Stats, Vec<Found>, Vec<serde_json::Value>, u64)>> =
         Mutex::new(Vec::new());
@@ -298,31 +314,33 @@ pub fn run_enumeration(values: Vec<ValueSpec>, workers: usize) -> BatchResult {
                 if vi >= values.len() {
                     break;
                 }
-                let mut stats = Stats::default();
-                let mut found: Vec<Found> = Vec::new();
-                let mut samples = Vec::new();
-                let mut idx = 0u64;
-                let mut digest = 0u64;
-                let n = enumerate_value(&values[vi], &mut stats, |plan, out| {
-                    digest = digest.wrapping_add(out.log_digest.wrapping_mul(2 * idx + 1));
-                    if vi < 2 && (idx == 0 || idx == 40) {
-                        samples.push(serde_json::json!({"value_index": vi, "plan_index": idx, "case": out.summary}));
-                    }
-                    for v in out.violations {
-                        if found.len() < MAX_FOUND {
-                            // keep the plan as given: explicit single-fault schedule
-                            let _ = plan;
-                            found.push(Found {
-                                origin: "enumeration",
-                                index: ((vi as u64) << 32) | idx,
-                                plan: out.effective.clone(),
-                                violation: v,
-                            });
+                let (stats, found, samples, n) = in_fresh_thread(|| {
+                    let mut stats = Stats::default();
+                    let mut found: Vec<Found> = Vec::new();
+                    let mut samples = Vec::new();
+                    let mut idx = 0u64;
+                    let mut digest = 0u64;
+                    let n = enumerate_value(&values[vi], &mut stats, |_plan, out| {
+                        digest = digest.wrapping_add(out.log_digest.wrapping_mul(2 * idx + 1));
+                        if vi < 2 && (idx == 0 || idx == 40) {
+                            samples.push(serde_json::json!({"value_index": vi, "plan_index": idx, "case": out.summary}));
                         }
-                    }
-                    idx += 1;
+                        for v in out.violations {
+                            if found.len() < MAX_FOUND {
+                                found.push(Found {
+                                    origin: "enumeration",
+                                    index: ((vi as u64) << 32) | idx,
+                                    chunk_start: vi as u64,
+                                    plan: out.effective.clone(),
+                                    violation: v,
+                                });
+                            }
+                        }
+                        idx += 1;
+                    });
+                    stats.log_digest = digest.wrapping_mul(2 * vi as u64 + 1);
+                    (stats, found, samples, n)
                 });
-                stats.log_digest = digest.wrapping_mul(2 * vi as u64 + 1);
                 results.lock().unwrap().push((vi, stats, found, samples, n));
             });
         }
@@ -348,10 +366,133 @@ pub fn run_enumeration(values: Vec<ValueSpec>, workers: usize) -> BatchResult {
 // ------------------------------------------------------------------------------------------------
 // Minimisation: shrink schedule, knobs and value while the same violation class persists.
 
-fn still_fails(plan: &Plan, class: &str) -> bool {
-    let mut scratch = Stats::default();
-    let out = execute(plan, None, &mut scratch);
-    out.violations.iter().any(|v| v.class == class)
+/// Does the plan, executed alone on a fresh thread, show the violation class?
+pub fn still_fails(plan: &Plan, class: &str) -> bool {
+    history_fails(&[], plan, class)
+}
+
+/// Execute `prior` and then `last` in order on one fresh thread (replay mode, no PRNG) and
+/// report whether `last` shows the violation class.
+pub fn history_fails(prior: &[Plan], last: &Plan, class: &str) -> bool {
+    in_fresh_thread(|| {
+        let mut scratch = Stats::default();
+        for p in prior {
+            let _ = execute(p, None, &mut scratch);
+        }
+        let out = execute(last, None, &mut scratch);
+        out.violations.iter().any(|v| v.class == class)
+    })
+}
+
+pub struct Repro {
+    /// plans to execute, in order, on one thread before `plan`
+    pub history: Vec<Plan>,
+    pub plan: Plan,
+    pub reproducible: bool,
+    pub attempts: u64,
+    pub note: String,
+}
+
+pub struct ReproCtx<'a> {
+    pub prop: Prop,
+    pub search_base: u64,
+    pub fault_free_base: u64,
+    pub fault_free_only: bool,
+    pub enum_values: &'a [ValueSpec],
+}
+
+/// Turn a violation found in a batch into something that replays exactly: the minimised plan
+/// alone if it fails in isolation, otherwise the plan together with the minimised list of
+/// earlier runs of its thread (hidden state in the code under test).
+pub fn reproduce(f: &Found, ctx: &ReproCtx) -> Repro {
+    let class = f.violation.class.as_str();
+    if still_fails(&f.plan, class) {
+        let (plan, attempts) = minimise(&f.plan, class);
+        return Repro { history: vec![], plan, reproducible: true, attempts, note: String::new() };
+    }
+    // collect what ran on the same thread before it
+    let mut prior: Vec<Plan> = in_fresh_thread(|| {
+        let mut scratch = Stats::default();
+        let mut plans = Vec::new();
+        match f.origin {
+            "enumeration" => {
+                let vi = f.chunk_start as usize;
+                let upto = f.index & 0xFFFF_FFFF;
+                let mut idx = 0u64;
+                if let Some(v) = ctx.enum_values.get(vi) {
+                    enumerate_value(v, &mut scratch, |_p, out| {
+                        if idx < upto {
+                            plans.push(out.effective.clone());
+                        }
+                        idx += 1;
+                    });
+                }
+            }
+            origin => {
+                let (base, ff) = if origin == "fault-free-search" {
+                    (ctx.fault_free_base, true)
+                } else {
+                    (ctx.search_base, ctx.fault_free_only)
+                };
+                for i in f.chunk_start..f.index {
+                    let out = search_run(ctx.prop, base, i, ff, &mut scratch);
+                    plans.push(out.effective);
+                }
+            }
+        }
+        plans
+    });
+    let mut attempts = 1u64;
+    if !history_fails(&prior, &f.plan, class) {
+        return Repro {
+            history: vec![],
+            plan: f.plan.clone(),
+            reproducible: false,
+            attempts,
+            note: "the violation reproduces neither in isolation nor after replaying the earlier runs of its thread: the code under test appears to keep state shared between threads; re-run the check with --workers 1 to observe it".into(),
+        };
+    }
+    // shrink the history: shortest suffix first, then drop single runs
+    let mut k = 1usize;
+    while k < prior.len() {
+        attempts += 1;
+        if history_fails(&prior[prior.len() - k..], &f.plan, class) {
+            prior = prior[prior.len() - k..].to_vec();
+            break;
+        }
+        k *= 2;
+    }
+    let mut i = prior.len();
+    let mut budget = 600;
+    while i > 0 && budget > 0 {
+        i -= 1;
+        budget -= 1;
+        let mut cand = prior.clone();
+        cand.remove(i);
+        attempts += 1;
+        if history_fails(&cand, &f.plan, class) {
+            prior = cand;
+        }
+    }
+    // then the plans themselves: the failing one, and each remaining earlier one
+    let (plan, a) = minimise_with(&f.plan, &|p| history_fails(&prior, p, class));
+    attempts += a;
+    for i in 0..prior.len() {
+        let (shrunk, a) = minimise_with(&prior[i], &|p| {
+            let mut h = prior.clone();
+            h[i] = p.clone();
+            history_fails(&h, &plan, class)
+        });
+        attempts += a;
+        prior[i] = shrunk;
+    }
+    Repro {
+        history: prior,
+        plan,
+        reproducible: true,
+        attempts,
+        note: "does not fail in isolation: needs the listed earlier runs on the same thread (hidden state in the code under test)".into(),
+    }
 }
 
 fn shrink_text_candidates(t: &str, range: bool) -> Vec<String> {
@@ -541,9 +682,14 @@ fn shrink_value_candidates(v: &ValueSpec) -> Vec<ValueSpec> {
 }
 
 pub fn minimise(plan: &Plan, class: &str) -> (Plan, u64) {
+    minimise_with(plan, &|p| still_fails(p, class))
+}
+
+/// Shrink `plan` while `fails` keeps holding.
+pub fn minimise_with(plan: &Plan, fails: &dyn Fn(&Plan) -> bool) -> (Plan, u64) {
     let mut best = plan.clone();
     let mut tried = 0u64;
-    if !still_fails(&best, class) {
+    if !fails(&best) {
         return (best, 0);
     }
     let mut progress = true;
@@ -556,7 +702,7 @@ pub fn minimise(plan: &Plan, class: &str) -> (Plan, u64) {
                 return false;
             }
             *tried += 1;
-            if still_fails(&cand, class) {
+            if fails(&cand) {
                 *best = cand;
                 true
             } else {
